@@ -621,6 +621,11 @@ func generate(cfg *hx.Config) {
 	for i := 0; i < 160*mult; i++ {
 		emit("tri", genTriple(rng.Fork(), i))
 	}
+	// 3d. compressed bodies as producers may legally emit them (multi-member gzip, optional
+	//     header fields, every level, stored blocks; raw deflate at every level)
+	for i := 0; i < 120*mult; i++ {
+		emit("gz", genCompressed(rng.Fork(), i))
+	}
 	// 4a. boundary values of the entry fields (cookies with every attribute, statuses,
 	//     versions, header / query values)
 	for i := 0; i < 300*mult; i++ {
